@@ -13,12 +13,13 @@ LEVEL = "exploration"
 RULE = (
     "complete enumeration of 8 built-in types x {empty allowed, not allowed} x length declarations {none, exact, "
     "lower-only, upper-only, multi-item, multi-item open on both sides; fixed: two exact widths} x allowed-character ranges {none, 32...126, two-item "
-    "digits+lower-case, open 33...; set before or after the field is declared} x formats {delimited, fixed, excel, ods} x cells {empty, 1-3 blanks, shortest and "
+    "digits+lower-case, open 33..., letters and digits as quoted characters, digits and quoted upper-case letters; set before or after the field is declared} x formats {delimited, fixed, excel, ods} x cells {empty, 1-3 blanks, shortest and "
     "longest allowed stem, one shorter / one longer, a stem with one disallowed character at every position, fixed: "
     "blank-padded stems, cells of / padded with tabs, no-break spaces, ideographic spaces and unit separators}; type rules are chosen so that the undisturbed stem satisfies them. A case is (declaration, "
     "format, allowed range, cell), distinct by digest; every case sits on a guard and counts as non-trivial. A second "
     "part reads the same cells through Cid.read + cutplace.rows(on_error='yield') and checks that each rejection "
-    "names the field."
+    "names the field. A third part, in every worker process, offers a character under a range that excludes it right after "
+    "another data format's range has accepted it."
 )
 ASSUMPTIONS = [
     "guard model of cpverif/models/fieldmodel.py; only the blank (U+0020) is padding of fixed cells",
@@ -26,8 +27,8 @@ ASSUMPTIONS = [
 
 LENGTHS = ["", "3", "2...", "...4", "1...2, 4...5", "...2, 4..."]
 FIXED_WIDTHS = ["3", "5"]
-ALLOWED = [None, "32...126", "48...57, 97...122", "33..."]
-DISALLOWED_CHAR = {None: None, "32...126": "é", "48...57, 97...122": "A", "33...": " "}
+ALLOWED = [None, "32...126", "48...57, 97...122", "33...", '"0"..."9", "A"..."Z", "a"..."z"', '"0"..."9", "A"..."Z"']
+DISALLOWED_CHAR = {None: None, "32...126": "é", "48...57, 97...122": "A", "33...": " ", '"0"..."9", "A"..."Z", "a"..."z"': "_", '"0"..."9", "A"..."Z"': "b"}
 FIELD = "fld_under_test"
 
 
@@ -167,8 +168,36 @@ def run(ctx):
                 ctx.count("field.validated.internal-error.%s" % type(error).__name__)
         if kind == "delimited" and index % e2e_every == 0:
             end_to_end(ctx, mon, type_name, empty, length_text, rule, allowed, cells, late_row=(index // e2e_every) % 2 == 1)
+    cross_format_memory(ctx)
     ctx.exhaustive = True
     ctx.note("the product types x flags x length declarations x allowed ranges x formats x guard cells is enumerated completely in both tiers; thorough drives every delimited declaration end-to-end as well")
+
+
+def cross_format_memory(ctx):
+    """In one process: a character is accepted under a range that allows it, then offered under every range that does
+    not - the guard is about the range of the data format at hand, whatever other data formats have accepted before.
+    Runs in every worker (the order of the declarations above differs from worker to worker)."""
+    from cutplace import errors
+
+    for type_name in ("Text", "Pattern"):
+        for wide in ALLOWED:
+            for narrow in ALLOWED:
+                bad = DISALLOWED_CHAR[narrow]
+                if bad is None or narrow == wide:
+                    continue
+                if wide is not None and not R.contains(R.parse_int_range(wide), ord(bad)):
+                    continue
+                rule = "*" if type_name == "Pattern" else ""
+                for allowed in (wide, narrow):
+                    field = c02.construct(ctx, "C03", type_name, False, "", rule, c02.make_format("delimited", ".", "", allowed))
+                    if field is None:
+                        continue
+                    for cell in (bad, "7" + bad, bad + "7"):
+                        try:
+                            field.validated(cell)
+                        except errors.FieldValueError:
+                            pass
+                ctx.count("cross-format.character-accepted-elsewhere-first")
 
 
 def end_to_end(ctx, mon, type_name, empty, length_text, rule, allowed, cells, late_row=False):
@@ -192,7 +221,7 @@ def end_to_end(ctx, mon, type_name, empty, length_text, rule, allowed, cells, la
         ctx.violation("C03:%s:declaration-refused" % type_name, case, "valid field declaration refused by Cid.read", expected="cid", observed=error)
         return
     out = io.StringIO()
-    csv.writer(out).writerows([["h", c] for c in cells])
+    csv.writer(out).writerows([["7", c] for c in cells])
     mon.register_cases = False
     items = []
     try:
@@ -228,7 +257,7 @@ def replay(ctx, case):
         cid.read("<c03>", case["cid_rows"])
         if "cell" in case:
             out = io.StringIO()
-            csv.writer(out).writerows([["h", case["cell"]]])
+            csv.writer(out).writerows([["7", case["cell"]]])
             for item in cutplace.rows(cid, io.StringIO(out.getvalue(), newline=""), on_error="yield"):
                 if isinstance(item, Exception) and FIELD not in str(item):
                     ctx.violation("C03:rejection-does-not-name-field", case, "rejection message does not name the field", observed=str(item))
